@@ -10,6 +10,7 @@ CONSTANTS
   Eager = TRUE
   ArmInFlush = FALSE
   WakeAfterPush = TRUE
+  Overflow = FALSE
   MaxLen = 80
   LateRounds = 1
 SPECIFICATION GSpec
